@@ -61,6 +61,11 @@ def normalCoord (pl : Plane) (v : V3 K) : K :=
   match pl with
   | .xy => v.z | .xz => v.y | .yz => v.x
 
+/-- the two in-plane coordinates of a vector -/
+def inPlane (pl : Plane) (v : V3 K) : K × K :=
+  match pl with
+  | .xy => (v.x, v.y) | .xz => (v.x, v.z) | .yz => (v.y, v.z)
+
 /-- `so3_exp(axis·φ)` for `(c, s) = (cos φ, sin φ)`: rotation about the plane normal -/
 def rotAbout (pl : Plane) (c s : K) : M3 K :=
   match pl with
